@@ -23,6 +23,7 @@ RULE = ('Hypothesis: nested flows of unique words, \\foreignlanguage, otherlangu
         'control words (also such with an optional argument that is not given: \\footnotemark, \\printbibliography, a user macro, \\\\) and formulas at argument ends, simple insertions of 1-6 words; main language by option or by babel package option; languages german, french, english, russian and an unknown name; '
         'thresholds 0..5. oracle (i)-(iv) above against a reference language tracker and the single-language run. '
         'non-trivial = at least two languages AND a language command nested in another language scope, an argument or a footnote; distinct by source text')
+RULE += ' Additions: the placeholder of a short insertion must belong to the collection of the surrounding language.'
 ASSUMPTIONS = [
     '\\selectlanguage is generated at the top level and directly inside language scopes only, never inside ordinary groups, arguments or footnotes (YaLafi, like the statement, has no group-local switches)',
     'claim (iv) is asserted only for insertions made of plain words with plain words of the surrounding language directly before and after; the other branches of the joining heuristic carry only (i)-(iii)',
